@@ -131,3 +131,7 @@ def check(tier, seed, t0):
 
 
 replay = _mk.make_replay(PROP, MON, WEIGHTS, {"pool": 6, "audit_every": 3, "blank_values": False})
+
+
+# (what later rounds of seeded changes added to the workload; part of the evidence's description of the check)
+RULE += "; " + 'a third of the histories run the server with --defaults (its calendar and address book are modelled collections; scripted user actions on them followed by a restart)'
